@@ -6,6 +6,7 @@ import Zlink.Model.DriverSrv
 import Zlink.Model.DriverEnv
 import Zlink.Model.DriverIdl
 import Zlink.Model.DriverNotif
+import Zlink.Model.DriverUnix
 /-! `zmodel`: reads case lines on stdin, prints for each the model's observation and the Lean
     oracle's verdict on the implementation's observation. -/
 
@@ -18,6 +19,7 @@ def handleLine (line : String) : String :=
   | "ser" :: _ => DriverSer.handle ts
   | "chain" :: _ => DriverChain.handle ts
   | "srv" :: _ => DriverSrv.handle ts
+  | "unix" :: _ => DriverUnix.handle ts
   | "notif" :: _ => DriverNotif.handle ts
   | "once" :: _ => DriverNotif.handle ts
   | "idl" :: _ => DriverIdl.handle ts
